@@ -130,7 +130,8 @@ type FStream struct {
 	Kind    string
 	Wire    []byte
 	Payload []byte // what the intact stream carries
-	Fin     error  // how the underlying body ends (io.EOF, or a framing error: unit lanes only)
+	Fin     error  // how the underlying body ends (io.EOF, or the framing layer's error)
+	Full    []byte // Fin != io.EOF: the whole message that was declared (Wire is the part that arrives)
 	Intact  bool   // oracle: exactly Payload, then io.EOF
 	MustErr bool   // oracle: a read error after a prefix of Payload, never a clean end
 	ErrOrOK bool   // oracle: a read error, or exactly Payload + io.EOF (a bit flip under an integrity check)
@@ -299,7 +300,7 @@ func (sp *spec) derive(r *rand.Rand, pieces [][]byte) FStream {
 		case "flip": // no integrity check in raw DEFLATE: nothing to judge but the model
 			st.Wire = flipAt(r, whole, 0, len(whole))
 		case "srcerr":
-			st.Wire, st.MustErr, st.Fin = whole[:r.Intn(len(whole))], true, io.ErrUnexpectedEOF
+			st.Wire, st.MustErr, st.Fin, st.Full = whole[:r.Intn(len(whole))], true, io.ErrUnexpectedEOF, whole
 		}
 		return st
 	}
@@ -325,9 +326,9 @@ func (sp *spec) derive(r *rand.Rand, pieces [][]byte) FStream {
 		st.Payload = sp.payload
 	case "boundary-srcerr": // the framing layer ends the message (with its error) after a complete member
 		k := 1 + r.Intn(len(pieces)-1)
-		st.Wire, st.MustErr, st.Fin = cat(pieces[:k]...), true, io.ErrUnexpectedEOF
+		st.Wire, st.MustErr, st.Fin, st.Full = cat(pieces[:k]...), true, io.ErrUnexpectedEOF, whole
 	case "inside-srcerr":
-		st.Wire, st.MustErr, st.Fin = whole[:r.Intn(len(whole))], true, io.ErrUnexpectedEOF
+		st.Wire, st.MustErr, st.Fin, st.Full = whole[:r.Intn(len(whole))], true, io.ErrUnexpectedEOF, whole
 	case "stray": // 1-9 bytes after the last member: too short to be a header
 		g := make([]byte, 1+r.Intn(9))
 		r.Read(g)
